@@ -204,6 +204,13 @@ def prelude() -> List[Tuple[str, str, Any]]:
                       "specification asks for it (trigger marker unfold!sfold, an uninterpreted predicate without axioms)",
         FA([F, M, n], Imp(n >= 0, sfold_f(F, M, n + 1) == sumset_f(padset_f(sfold_f(F, M, n), sel(M, n)), sel(F, n))),
            patterns=[sfold_hint(F, M, n)]))
+    sk_sf = z3.Function("sk_sfold", SS, IS, SS, IS, I, I)
+    add("sfold-ext", "Lean Layout.sfold_congr: the structure layout depends only on the sets and alignments of the first n fields",
+        FA([F, M, G, N, n], Or(And(0 <= sk_sf(F, M, G, N, n), sk_sf(F, M, G, N, n) < n,
+                                   Or(sel(F, sk_sf(F, M, G, N, n)) != sel(G, sk_sf(F, M, G, N, n)),
+                                      sel(M, sk_sf(F, M, G, N, n)) != sel(N, sk_sf(F, M, G, N, n)))),
+                               sfold_f(F, M, n) == sfold_f(G, N, n)),
+           patterns=[MP(sfold_f(F, M, n), sfold_f(G, N, n))]))
     add("sfold-one", "Lean Layout.sfold_one: the first field of a structure is never padded, SFold [f] = L f",
         FA([F, M], Imp(sel(M, 0) >= 1, sfold_f(F, M, 1) == sel(F, 0)), patterns=[sfold_f(F, M, 1)]))
     add("minmap", "definitional", FA([F, i], sel(minmap(F), i) == smin(sel(F, i)), patterns=[sel(minmap(F), i)]))
